@@ -1,5 +1,5 @@
 #!/bin/bash
 # behaviour checks of the fixed defects on the rebased tree in /tmp/rb
-for f in C16/defect_2.py C16/defect_3.py C16/defect_5.py C15/defect_5.py C17/defect_1.py C20/defect_1.py C20/defect_2.py; do
+for f in C16/defect_3.py C16/defect_5.py C15/defect_5.py C17/defect_1.py C20/defect_1.py C20/defect_2.py; do
   (cd /verif/findings/hunt/$(dirname $f) && PYTHONPATH=/tmp/rb timeout 60 /venv/bin/python $(basename $f) >/dev/null 2>&1; echo -n "$f:$? ")
 done; echo
